@@ -463,11 +463,36 @@ func c10Backoff(c *Ctx) {
 			if last == nil {
 				continue
 			}
+			// the attempt is one made after the wait (the initial dial precedes the loop)
+			posWait, posDial, k := -1, -1, 0
+			p.Instrs(func(in ssa.Instruction) {
+				if in == ssa.Instruction(waits[0]) && posWait < 0 {
+					posWait = k
+				}
+				if in == ssa.Instruction(last) {
+					posDial = k
+				}
+				k++
+			})
+			if posDial < posWait {
+				continue
+			}
 			lv, _ := last.(ssa.Value)
-			failed := false
+			failed, exhausted := false, false
 			for _, a := range p.Atoms {
 				x, y, op, ok := effCmp(a)
-				if !ok || !exprIsNil(y) || op != token.NEQ {
+				if !ok {
+					continue
+				}
+				if failed {
+					// leaving through the loop's own bound test (a loop whose test sits at the bottom): the
+					// budget is exhausted, which is the documented way out
+					_, isC := y.ConstInt()
+					if isC && x.Contains(func(e *an.Expr) bool { return e.Op == an.OpLoop }) {
+						exhausted = true
+					}
+				}
+				if !exprIsNil(y) || op != token.NEQ {
 					continue
 				}
 				if b, i := stripExtract(x); i == 1 && b.V == lv && lv != nil {
@@ -478,7 +503,7 @@ func c10Backoff(c *Ctx) {
 				continue
 			}
 			nLoop++
-			if p.Ret != nil || p.Panic != nil {
+			if (p.Ret != nil || p.Panic != nil) && !exhausted {
 				badRet = "init returns after a failed attempt inside the back-off loop under " + atomsString(p)
 			}
 		}
